@@ -1,6 +1,7 @@
 import RossModel.Lemmas.SourceTie
 import RossModel.Lemmas.Event
 import RossModel.Lemmas.Layout
+import RossModel.Lemmas.SourceEncoders
 /-!
 # C11 — Event encodings are the published byte layouts, and decoders read exactly those
 
@@ -49,5 +50,10 @@ theorem C11_src_layouts : (SrcTie.encoderLayoutOk && SrcTie.decoderLayoutOk) = t
 /-! non-vacuity (kernel-evaluated): the published encoding of an ack event, and a data event read by the reference decoder -/
 example : specEncode ⟨0, 0, 0⟩ (.ack 0xabab 0x0123) = ⟨false, 0xabab, [0x00, 0x03, 0x01, 0x23]⟩ := by decide
 example : refDecode .data ⟨false, 0x0101, [0, 4, 0x12, 0x34, 0, 2, 7, 8]⟩ = some (.data 0x0101 0x1234 2 [7, 8]) := by decide
+
+/-- **C11 about the encoders as they read now**: what `to_packet` writes (read from the sources on every run, `Src.encodeE`)
+is, for every event, the model's `encode` — which `C11_encode_eq_layout` shows to be the published byte layout -/
+theorem C11_src_encoders_eq (pad : Pad) (e : Event) : Src.encodeE pad e = encode pad e :=
+  Ross.src_encodeE_eq pad e
 
 end Ross.Props
